@@ -49,8 +49,9 @@ BUDGET = {'quick': (16, 70), 'thorough': (16, 1000)}
 # an `open` entry in known_findings.json) counts it.  With False it is an OutOfDomain.
 KNOWN_AS_VIOLATION = True
 
-RULE = ('Per case: a generated tree of 2 top-level packages / 9 modules (one submodule of the '
-        'second package is named exactly like the first top-level package; flags: does each package '
+RULE = ('Per case: a generated tree of 2 top-level packages / 11 modules (sibling sub-packages '
+        'sub and sib hold a leaf module of the same name; one submodule of the second package is '
+        'named exactly like the first top-level package; flags: does each package '
         '__init__ import its submodules; which re-exports exist), every module defining fn, its '
         'functools.wraps-decorated variant wfn (another object, __wrapped__ is fn), gn, '
         'class K with methods meth/other/fn (fn named like the module-level function) and nested '
@@ -70,7 +71,8 @@ RULE = ('Per case: a generated tree of 2 top-level packages / 9 modules (one sub
         'bounded sweeps run first: every import form x module depth x __init__ flag (3-file and '
         '1-file layouts, plus one name for two modules in two files, and a plain dotted import '
         'whose top-level name is bound to another module in another file, and fn / wfn in '
-        'both orders of first use; 76 cases) and every error '
+        'both orders of first use, and same-named leaf modules of sibling sub-packages by plain '
+        'imports in both orders, `import a.b as b`, and an alias re-bound inside one file; 94 cases) and every error '
         'class x position (root / included / second root) x variant (108 cases).')
 ASSUMPTIONS = [
     '`from X import Y` is generated only where Y is a module or package (Gin implements every '
@@ -78,9 +80,15 @@ ASSUMPTIONS = [
     'A dotted path is used in a file only if it is valid in a fresh interpreter that executed only '
     'that file\'s import statements (decided by a forked child running Python\'s own exec/getattr); '
     'paths that work only because another file imported a submodule are not generated.',
-    'All import statements of a file directly follow its enabling statement; a bound name is '
-    'bound at most once per file, except that several plain `import top.x` / `import top.y` may '
-    'share their top-level name (same object in Python).',
+    'The leading import statements of a file directly follow its enabling statement and bind '
+    'each name at most once, except that several plain `import top.x` / `import top.y` may '
+    'share their top-level name (same object in Python). A file may contain ONE later import, '
+    'between its statements, that re-binds the name of a leading import to another module; as in '
+    'Python the name denotes the first module before it and the second after it (the per-file '
+    'oracle child executes the imports in order, one table per stretch).',
+    'alias_collision is decided in execution order: only the FIRST use of an object (and the '
+    'class of a first-used method) registers a name; reaching an already registered object '
+    'through a colliding spelling is not in that class and stays generated.',
     'Reference targets are functions and classes (never cons), so evaluation terminates.',
     'Identity of a configured/delivered object is observed through what calling it returns '
     '(every generated body reports its own module and qualified name) and isinstance against '
@@ -136,7 +144,7 @@ LEVEL_TEXT = ('Generated package trees and config-file trees exercise every impo
               'space, not a proof.')
 LEVEL_NOTE = ('Trusted: CPython import semantics in the oracle child, the 30-line binding model, '
               'fork as "fresh interpreter" (the parent never imports the generated packages and '
-              'their names are unique per case). The tree shape is fixed (depth 3, 9 modules); '
+              'their names are unique per case). The tree shape is fixed (depth 3, 11 modules); '
               'only flags, imports, spellings and statements vary.')
 
 ENABLE = 'from __gin__ import dynamic_registration'
@@ -164,11 +172,14 @@ def _module_names(tag):
   a, b = tag + 'a', tag + 'b'
   # The last one is a submodule of the second package named exactly like the FIRST top-level
   # package: `from b import a` and a plain `import a.m1` (other file) bind the same name.
+  # Indices 9/10: a sibling sub-package `sib` of `sub` holding a leaf module with the SAME name
+  # (a.sub.m1 / a.sib.m1, same function and class names) -- two plain dotted imports of them bind
+  # one name and differ only in a middle component.
   return [a, a + '.m1', a + '.m2', a + '.sub', a + '.sub.m1', a + '.sub.m3', b, b + '.m1',
-          b + '.' + a]
+          b + '.' + a, a + '.sib', a + '.sib.m1']
 
 
-PACKAGES = (0, 3, 6)
+PACKAGES = (0, 3, 6, 9)
 
 _BODY = '''
 def fn(x='dx', y='dy'):
@@ -227,7 +238,7 @@ def _write_tree(root, names, pkg):
     src = 'import functools\n_ID = __name__\n' + _BODY % {'gn': '' if is_pkg else _GN}
     if i == 0:
       if init[0]:
-        src += f'\nfrom {a} import m1, m2, sub\n'
+        src += f'\nfrom {a} import m1, m2, sub, sib\n'
       if reexp & 1:
         src += f'\nfrom {a}.m1 import gn, K as RK\n'
     elif i == 3:
@@ -235,6 +246,9 @@ def _write_tree(root, names, pkg):
         src += f'\nfrom {asub} import m1, m3\n'
       if reexp & 2:
         src += f'\nfrom {asub}.m3 import gn as rgn\n'
+    elif i == 9:
+      if init[1]:
+        src += f'\nfrom {names[9]} import m1\n'
     elif i == 6:
       if init[2]:
         src += f'\nfrom {b} import m1, {a}\n'
@@ -468,9 +482,27 @@ def _by_obj(table):
   return by
 
 
-def _resolve_files(case, names, root, renames, overrides, cache):
-  """Per file: import lines, Python table, resolved statements.
+def _segment(imps, lines, names, root, cache):
+  """One stretch of a file in which the set of executed imports is constant."""
+  if lines not in cache:
+    cache[lines] = _sub(_py_table, {'root': root, 'tops': [names[0], names[6]],
+                                    'imports': list(lines)})
+  res = cache[lines]
+  if res['error']:
+    raise RuntimeError('harness: generated imports are not valid Python: ' + res['error'])
+  src = {}
+  for i in imps:
+    src[i['bound']] = i          # the last statement binding the name
+  return {'imps': imps, 'table': res['table'], 'mods': res['mods'], 'by': _by_obj(res['table']),
+          'src': src}
 
+
+def _resolve_files(case, names, root, renames, overrides, cache):
+  """Per file: import lines, Python table(s), resolved statements.
+
+  A file may carry one `late` import placed between its statements that RE-BINDS a name bound by
+  one of its leading imports; statements before it are resolved by Python given the leading
+  imports only, statements after it given all of them executed in order (segment 0 / 1).
   overrides[(file, stmt)] = 'demote' (aim at the module's fn instead of the method) or
   ('respell', path): how the known method_respelled class is excluded by construction.
   """
@@ -479,91 +511,105 @@ def _resolve_files(case, names, root, renames, overrides, cache):
   for fidx, fspec in enumerate(case['files']):
     imps = _file_imports(fspec, fidx, names, renames)
     lines = tuple(i['line'] for i in imps)
-    if lines not in cache:
-      cache[lines] = _sub(_py_table, {'root': root, 'tops': [names[0], names[6]],
-                                      'imports': list(lines)})
-    res = cache[lines]
-    if res['error']:
-      raise RuntimeError('harness: generated imports are not valid Python: ' + res['error'])
-    table = res['table']
-    by = _by_obj(table)
-    src = {}
-    for i in imps:
-      src[i['bound']] = i          # the last statement binding the name
-    info = {'imps': imps, 'table': table, 'mods': res['mods'], 'by': by, 'src': src, 'stmts': []}
+    seg0 = _segment(imps, lines, names, root, cache)
+    info = dict(seg0)
+    info.update(stmts=[], segs=[seg0], late=None)
+    n = len(fspec['stmts'])
+    late = fspec.get('late')
+    if late and case.get('error') is None:
+      imp_k, mod_i, form_bit, at = late
+      old = imps[imp_k % len(imps)]
+      alias = renames.get((fidx, 'late')) or old['bound']
+      modname = names[mod_i % len(names)]
+      line, name, partial, form = _import_line(modname, 3 if form_bit & 1 else 1, alias)
+      limp = {'line': line, 'bound': name, 'partial': partial, 'form': form, 'mod': modname,
+              'k': 'late'}
+      seg1 = _segment(imps + [limp], lines + (line,), names, root, cache)
+      info['segs'].append(seg1)
+      info['late'] = {'line': line, 'at': at % (n + 1), 'imp': limp, 'old': old}
 
-    def target(imp_i, d):
-      mod = imps[imp_i % len(imps)]['mod']
-      if d == 'gn' and mod in pkgs:
-        d = 'fn'
-      return mod + ':' + d
-
-    def spell(objid, k):
-      sp = by.get(objid)
-      if not sp:
-        raise RuntimeError(f'harness: no spelling for {objid} in file {fidx}')
-      return sp[k % len(sp)]
+    def pick(seg, imp_i, d, spell_i, ov=None):
+      mod = seg['imps'][imp_i % len(seg['imps'])]['mod']
+      cands = [mod]
+      if info['late']:
+        cands.append(info['late']['imp']['mod'])   # the old module may have become unreachable
+      for m in cands:
+        dd = 'fn' if d == 'gn' and m in pkgs else d
+        sp = seg['by'].get(m + ':' + dd)
+        if sp:
+          path = sp[spell_i % len(sp)]
+          if isinstance(ov, tuple) and ov[1] in sp:
+            path = ov[1]
+          return m + ':' + dd, path
+      raise RuntimeError(f'harness: no spelling for {mod}:{d} in file {fidx}')
 
     for k, s in enumerate(fspec['stmts']):
+      seg = info['segs'][1] if info['late'] and k >= info['late']['at'] else seg0
       if s[0] == 'b':
         _, imp_i, def_i, spell_i, param_i, val, blk = s
         d = LEAF_DEFS[def_i % len(LEAF_DEFS)]
         ov = overrides.get((fidx, k))
         if ov == 'demote':
           d = 'fn'
-        objid = target(imp_i, d)
-        path = spell(objid, spell_i)
-        if isinstance(ov, tuple) and ov[1] in by.get(objid, ()):
-          path = ov[1]
+        objid, path = pick(seg, imp_i, d, spell_i, ov)
         params = ('a', 'b') if d == 'cons' else ('x', 'y')
-        info['stmts'].append({'kind': 'b', 'objid': objid, 'path': path,
+        info['stmts'].append({'kind': 'b', 'objid': objid, 'path': path, 'seg': seg,
                               'param': params[param_i % 2], 'val': val, 'blk': bool(blk)})
       else:
         _, imp_i, spell_i, param_i, imp_j, tdef_i, tspell_i, call = s
-        holder = target(imp_i, 'cons')
-        tgt = target(imp_j, REF_DEFS[tdef_i % len(REF_DEFS)])
-        info['stmts'].append({'kind': 'r', 'objid': holder, 'path': spell(holder, spell_i),
+        holder, hpath = pick(seg, imp_i, 'cons', spell_i)
+        tgt, tpath = pick(seg, imp_j, REF_DEFS[tdef_i % len(REF_DEFS)], tspell_i)
+        info['stmts'].append({'kind': 'r', 'objid': holder, 'path': hpath, 'seg': seg,
                               'param': ('a', 'b')[param_i % 2], 'tobjid': tgt,
-                              'tpath': spell(tgt, tspell_i), 'call': bool(call)})
+                              'tpath': tpath, 'call': bool(call)})
     files.append(info)
   return files
 
 
-def _regname(info, path):
+def _regname(seg, path):
   head, _, rest = path.partition('.')
-  return info['src'][head]['partial'] + '.' + rest
+  return seg['src'][head]['partial'] + '.' + rest
 
 
-def _uses_of(info, fidx):
-  """(regname, objid, import k, aliased) for every name a statement makes Gin register."""
-  out = []
+def _collisions(files, order):
+  """The known input class alias_collision: two different objects REGISTERED under one name.
 
-  def add(path, objid):
-    head = path.split('.')[0]
-    imp = info['src'][head]
-    out.append((_regname(info, path), objid, (fidx, imp['k']), imp['form'] in (1, 3)))
-    if _is_method(objid):     # a method registers its class under the same spelling
-      out.append((_regname(info, path.rsplit('.', 1)[0]), _class_of(objid),
-                  (fidx, imp['k']), imp['form'] in (1, 3)))
-
-  for s in info['stmts']:
-    add(s['path'], s['objid'])
-    if s['kind'] == 'r':
-      add(s['tpath'], s['tobjid'])
-  return out
-
-
-def _collisions(files):
-  """The known input class: two different objects with one alias-substituted dotted name."""
-  seen = {}
-  for fidx, info in enumerate(files):
-    for reg, objid, key, aliased in _uses_of(info, fidx):
-      seen.setdefault(reg, []).append((objid, key, aliased))
+  Walks the statements in execution order.  An object is registered at its first use, under the
+  alias-substituted dotted name of that spelling; the first use of a method also registers its
+  class under the class part of that spelling.  A later use of an already registered object
+  through a colliding spelling registers nothing and is not in the class.
+  Returns {name: [keys of the aliased imports involved]}.
+  """
+  reg = {}       # name -> (objid, import key, aliased)
+  seen = set()
   bad = {}
-  for reg, lst in seen.items():
-    if len({o for o, _, _ in lst}) > 1:
-      bad[reg] = sorted({key for _, key, aliased in lst if aliased})
-  return bad
+
+  def register(name, objid, key, aliased):
+    prev = reg.get(name)
+    if prev is None:
+      reg[name] = (objid, key, aliased)
+    elif prev[0] != objid:
+      keys = bad.setdefault(name, set())
+      for _, k_, a_ in (prev, (objid, key, aliased)):
+        if a_:
+          keys.add(k_)
+
+  for fi, k in order:
+    s = files[fi]['stmts'][k]
+    seg = s['seg']
+    uses = [(s['objid'], s['path'])]
+    if s['kind'] == 'r':
+      uses.insert(0, (s['tobjid'], s['tpath']))
+    for objid, path in uses:
+      if objid in seen:
+        continue
+      seen.add(objid)
+      imp = seg['src'][path.split('.')[0]]
+      key, aliased = (fi, imp['k']), imp['form'] in (1, 3)
+      register(_regname(seg, path), objid, key, aliased)
+      if _is_method(objid):
+        register(_regname(seg, path.rsplit('.', 1)[0]), _class_of(objid), key, aliased)
+  return {name: sorted(keys, key=str) for name, keys in bad.items()}
 
 
 def _respelled(files, order):
@@ -583,8 +629,8 @@ def _respelled(files, order):
   refs = {}      # class objid -> [(file, reference text)]
   out = []
   for fi, k in order:
-    info = files[fi]
-    s = info['stmts'][k]
+    s = files[fi]['stmts'][k]
+    info = s['seg']              # the imports in force where the statement stands
     uses = [(s['objid'], s['path'], False)]
     if s['kind'] == 'r':
       uses.insert(0, (s['tobjid'], s['tpath'], True))    # the value is built first
@@ -616,7 +662,7 @@ def _emitted_respelled(imports, binds, table):
   for sel, _, val in binds:
     if table.get(sel) is None:
       continue
-    st_ = {'kind': 'b', 'objid': table[sel], 'path': sel}
+    st_ = {'kind': 'b', 'objid': table[sel], 'path': sel, 'seg': info}
     if isinstance(val, tuple) and val and val[0] == 'ref' and table.get(val[1]) is not None:
       st_.update(kind='r', tobjid=table[val[1]], tpath=val[1])
     info['stmts'].append(st_)
@@ -708,11 +754,16 @@ def _file_lines(info, items, paths):
   """-> (head lines, body lines)."""
   head = [ENABLE] + [i['line'] for i in info['imps']]
   body = []
+  late = info.get('late')
   for kind, k in items:
     if kind == 'inc':
       body.append(f"include '{paths[k]}'")
     else:
+      if late and k == late['at']:
+        body.append(late['line'])          # the re-binding import stands right before stmt k
       body.append(_stmt_text(info['stmts'][k]))
+  if late and late['at'] >= len(info['stmts']):
+    body.append(late['line'])
   return head, body
 
 
@@ -936,7 +987,7 @@ def _check(case, root):
   kept_respelled = []
   for _ in range(60):
     changed = False
-    bad = _collisions(files)
+    bad = _collisions(files, order)
     if bad and keep:
       kept_collisions = bad
       labels.add('kept:alias-collision')
@@ -944,7 +995,7 @@ def _check(case, root):
       labels.add('excluded:alias-collision')
       for keys in bad.values():
         for (fi, k) in keys:
-          renames[(fi, k)] = f'w{fi}{k}'
+          renames[(fi, k)] = f'wl{fi}' if k == 'late' else f'w{fi}{k}'
       changed = True
     resp = _respelled(files, order)
     if resp and keepm:
@@ -1043,9 +1094,19 @@ def _check(case, root):
         if key in s:
           oid = s['objid'] if key == 'path' else s['tobjid']
           ndef = oid.split(':')[1].count('.') + 1
-          mod_of_path = info['mods'].get(s[key].rsplit('.', ndef)[0])
+          mod_of_path = s['seg']['mods'].get(s[key].rsplit('.', ndef)[0])
           if mod_of_path is not None and mod_of_path != oid.split(':')[0]:
             labels.add('reexport-spelling')
+  for info in files:
+    if info['late'] and info['late']['imp']['mod'] != info['late']['old']['mod'] and (
+        info['late']['imp']['bound'] == info['late']['old']['bound']):
+      labels.add('rebinding-import')
+      before = {(s_[k_], s_['objid' if k_ == 'path' else 'tobjid']) for s_ in info['stmts']
+                if s_['seg'] is info['segs'][0] for k_ in ('path', 'tpath') if k_ in s_}
+      after = {(s_[k_], s_['objid' if k_ == 'path' else 'tobjid']) for s_ in info['stmts']
+               if s_['seg'] is not info['segs'][0] for k_ in ('path', 'tpath') if k_ in s_}
+      if any(p1 == p2 and o1 != o2 for p1, o1 in before for p2, o2 in after):
+        labels.add('rebound-selector-used-before-and-after')
   labels.add('init-imports:' + ''.join('y' if b else 'n' for b in case['pkg']['init']))
   multi = len(files) >= 2 or any(len(v) > 1 for v in mod_spellings.values())
   deep = bool(labels & {'method', 'nested-class', 'nested-method'})
@@ -1261,10 +1322,10 @@ _alias_i = st.integers(0, len(ALIASES) - 1)
 def _case(draw):
   pkg = {'init': draw(st.lists(st.booleans(), min_size=3, max_size=3)),
          'reexp': draw(st.integers(0, 3))}
-  focus = draw(st.sampled_from([1, 1, 1, 2, 4, 4, 5, 0, 3, 7, 8]))
-  mod_i = st.just(focus) | st.integers(0, 8)
+  focus = draw(st.sampled_from([1, 1, 1, 2, 4, 4, 5, 0, 3, 7, 8, 10]))
+  mod_i = st.just(focus) | st.integers(0, 10)
   imp = st.tuples(mod_i, st.integers(0, 3), _alias_i).map(list)
-  imp_i = st.just(0) | st.integers(0, 3)
+  imp_i = st.just(0) | st.integers(0, 4)
   def_i = st.sampled_from([0, 0, 1, 2, 2, 3, 3, 3, 4, 5, 6, 7, 8, 9, 9])
   bind = st.tuples(st.just('b'), imp_i, def_i, _small, st.integers(0, 1), st.integers(0, 999),
                    st.sampled_from([0, 0, 0, 1])).map(list)
@@ -1278,9 +1339,13 @@ def _case(draw):
     parent = None
     if i > 0 and draw(st.integers(0, 3)) > 0:
       parent = draw(st.integers(0, i - 1))
+    late = None
+    if draw(st.sampled_from([0, 0, 0, 1])):
+      # a later import re-binding the name of leading import #k: [k, module, form bit, position]
+      late = [draw(st.integers(0, 3)), draw(mod_i), draw(st.integers(0, 1)), draw(_small)]
     files.append({'parent': parent, 'at': draw(_small), 'str': draw(st.booleans()),
                   'imports': draw(st.lists(imp, min_size=1, max_size=4)),
-                  'stmts': draw(st.lists(stmt, min_size=1, max_size=6))})
+                  'stmts': draw(st.lists(stmt, min_size=1, max_size=6)), 'late': late})
   error = None
   if draw(st.sampled_from([0, 0, 0, 0, 0, 0, 0, 1, 1, 1])):
     error = [draw(st.sampled_from(range(len(ERROR_KINDS)))), draw(st.integers(0, 3)),
@@ -1320,6 +1385,43 @@ def _sweep_forms(tier):
                           ['b', 0, 6, 0, 1, 24, 0], ['b', 0, 7, 0, 1, 25, 1]]}
       cases.append({'pkg': {'init': [False] * 3, 'reexp': 0}, 'files': [single],
                     'error': None, 'keep': False})
+  # one file re-binds an alias: `import P.m1 as mm; mm.fn.x=..; import P.m2 as mm; mm.fn.x=..`
+  # (the second module's objects are first registered through another spelling, which keeps the
+  # case out of the alias_collision class)
+  for f_a, f_b in ((1, 1), (3, 3), (1, 3)):
+    for blk in (0, 1):
+      stmts = [['b', 1, 0, 0, 1, 81, 0], ['b', 1, 2, 0, 1, 82, 0],       # P.m2.fn / P.m2.K
+               ['b', 0, 0, 0, 0, 83, 0], ['b', 0, 2, 0, 0, 84, 0],       # mm.fn / mm.K  (m1)
+               ['b', 2, 0, 0, 0, 85, blk], ['b', 2, 2, 0, 0, 86, blk],   # mm.fn / mm.K  (m2)
+               ['r', 2, 0, 0, 2, 0, 0, 1]]
+      cases.append({'pkg': {'init': [False] * 3, 'reexp': 0},
+                    'files': [{'parent': None, 'at': 0, 'str': bool(blk),
+                               'imports': [[1, f_a, 0], [2, 0, 0]], 'stmts': stmts,
+                               'late': [0, 2, f_b >> 1, 4]}],
+                    'error': None, 'keep': False})
+  # `import a.b as b`: an alias equal to the module's own last component is still an alias
+  for mod, alias in ((1, 2), (4, 2), (3, 3), (10, 2)):
+    cases.append({'pkg': {'init': [False] * 3, 'reexp': 0},
+                  'files': [{'parent': None, 'at': 0, 'str': False, 'imports': [[mod, 1, alias]],
+                             'stmts': [['b', 0, 0, 0, 0, 71, 0], ['b', 0, 2, 0, 1, 72, 0],
+                                       ['r', 0, 0, 0, 0, 2, 0, 1]]}],
+                  'error': None, 'keep': False})
+  # sibling sub-packages with same-named leaf modules, both imported by plain dotted imports
+  # (either order; the name they bind belongs to the LAST one): objects of each are configured
+  for first, second in ((4, 10), (10, 4)):
+    for init in (False, True):
+      for two_files in (False, True):
+        stmts = [['b', 0, 0, 0, 0, 61, 0], ['b', 0, 2, 0, 1, 62, 0], ['r', 0, 0, 0, 0, 2, 0, 1],
+                 ['b', 0, 3, 0, 0, 63, 0], ['b', 1, 0, 0, 1, 64, 0]]
+        fa = {'parent': None, 'at': 0, 'str': False,
+              'imports': [[first, 0, 0], [second, 0, 0]], 'stmts': stmts}
+        files = [fa]
+        if two_files:
+          files.append({'parent': None, 'at': 0, 'str': False,
+                        'imports': [[second, 0, 0], [first, 0, 0]],
+                        'stmts': [['b', 0, 1, 0, 0, 65, 0], ['b', 1, 1, 0, 1, 66, 0]]})
+        cases.append({'pkg': {'init': [init] * 3, 'reexp': 0}, 'files': files,
+                      'error': None, 'keep': False})
   # fn and its functools.wraps-decorated variant wfn are two objects: both orders of first use
   for mod, form in ((1, 1), (0, 0), (5, 2)):
     for first, second in ((0, 9), (9, 0)):
